@@ -90,6 +90,7 @@ class Contract:
         self.options = {}
         self.locals = {}
         self.induct = {}            # obligation label -> expression naming the sequence
+        self.uses = []              # [(obligation label prefix, Call of a lemma)]: proved lemmas given as facts
         self.exclusions = []        # [(finding id, expr)] recorded known-finding classes
         for a in fn.args.args:
             ty = None
@@ -140,6 +141,9 @@ class Contract:
                     continue
                 if nm == 'induct':
                     self.induct[c.args[0].value] = c.args[1]
+                    continue
+                if nm == 'use':
+                    self.uses.append((c.args[0].value, _unlambda(c.args[1])))
                     continue
                 if nm == 'exclude':
                     self.exclusions.append((c.args[0].value, c.args[1]))
